@@ -223,3 +223,14 @@ pub struct VerifInfo {
     pub memtable_entries: Vec<VerifEntry>,
     pub immutable_entries: Vec<VerifEntry>,
 }
+
+/// A block cache with a small capacity (the default one pre-allocates a table for 8 Mi entries,
+/// which dominates the cost of opening a database thousands of times per second).
+pub fn block_cache(
+    capacity: usize,
+) -> Arc<dyn crate::Cache<crate::tables::BlockCacheKey, Arc<crate::tables::block::DataBlockReader>>> {
+    Arc::new(crate::utils::cache::LRUCache::<
+        crate::tables::BlockCacheKey,
+        Arc<crate::tables::block::DataBlockReader>,
+    >::new(capacity))
+}
